@@ -15,6 +15,8 @@ pub static DOUBLE_FREE: AtomicU64 = AtomicU64::new(0);
 pub static WRITE_AFTER_FREE: AtomicU64 = AtomicU64::new(0);
 /// strict mode for every thread (thread-stress sub-checks)
 pub static STRICT_ALL: AtomicBool = AtomicBool::new(false);
+/// maintain the global counters without poisoning / quarantine
+pub static COUNT_GLOBAL: AtomicBool = AtomicBool::new(false);
 
 const QN: usize = 256;
 const QMAX: usize = 1 << 16;
@@ -45,7 +47,7 @@ fn tl_add(count: i64, bytes: i64) {
     let _ = TL_COUNT.try_with(|c| c.set(c.get() + count));
     let _ = TL_BYTES.try_with(|c| c.set(c.get() + bytes));
     // the global counters are contended: only maintained while a thread-stress check needs them
-    if STRICT_ALL.load(Ordering::Relaxed) {
+    if STRICT_ALL.load(Ordering::Relaxed) || COUNT_GLOBAL.load(Ordering::Relaxed) {
         G_COUNT.fetch_add(count, Ordering::Relaxed);
         G_BYTES.fetch_add(bytes, Ordering::Relaxed);
     }
@@ -151,6 +153,9 @@ pub fn global_live() -> (i64, i64) {
 }
 pub fn set_strict(on: bool) {
     TL_STRICT.with(|c| c.set(on));
+}
+pub fn set_global_counting(on: bool) {
+    COUNT_GLOBAL.store(on, Ordering::SeqCst);
 }
 pub fn set_strict_all(on: bool) {
     STRICT_ALL.store(on, Ordering::SeqCst);
